@@ -1,4 +1,5 @@
 import sys,re,collections
+nv=0
 # summarise a fv output file: verdict line, clause table (violated>0 or skipped), violation list compact
 f=sys.argv[1]
 for l in open(f):
@@ -8,8 +9,10 @@ for l in open(f):
         m=re.search(r'violated=(\d+)',l)
         if m and int(m.group(1))>0: print(l[:230])
     elif l.startswith('VIOLATION'):
+        nv+=1
+        if nv>10: continue
         parts=l.split()
         d={p.split('=')[0]:p.split('=',1)[1] for p in parts if '=' in p}
         sig=l.split('sig=')[1].split(' occurrences')[0] if 'sig=' in l else ''
         print(' V dev=%.2e tol=%.1e occ=%s sig=%s'%(float(d.get('dev','nan')),float(d.get('tol','nan')),d.get('occurrences',''),sig[:90]))
-    elif l.startswith(('HELD','INCONCL','KNOWN')): print(l[:200])
+    elif l.startswith(('HELD','INCONCL','KNOWN')): print(l[:110])
